@@ -107,6 +107,18 @@ def run(ctx):
     ctx.check('R1', '_close closes the result pipes and marks the pool closed', bool(qs) and any(isinstance(st, ast.Assign) and any(is_self_attr(t, '_pool_closed') for t in st.targets) for st in walk_local(cl.node)),
               'Pool._close', 'queues-not-closed', '_close leaves result pipes open / does not mark the pool closed', where=loc(cl, cl.node))
 
+    # the pool is marked closed only after every clean-up thread has been joined (a close that was interrupted can be repeated)
+    gcl = ctx.an.cfg(cl, pool)
+    marks = [n for n in gcl.nodes if n.stmt is not None and n.part in (None, 'store') and isinstance(n.stmt, ast.Assign) and any(is_self_attr(t, '_pool_closed') for t in n.stmt.targets)
+             and isinstance(n.stmt.value, ast.Constant) and n.stmt.value.value is True]
+    join_done = {n.id for n in gcl.nodes if n.kind == 'for' and any(last_attr(c) == 'join' for c in calls_in(n.stmt))}
+    # leaving the join loop normally = the 'false' edge of its for-step node
+    after_join = {e.dst.id for n in gcl.nodes if n.id in join_done for e in n.succ if e.kind == 'false'}
+    pth = gcl.find_path([gcl.entry], lambda n: n in marks, edge_ok=is_flow, node_ok=lambda n: n.id not in after_join) if marks else None
+    ctx.check('R1', 'Pool._close marks the pool closed only after all clean-up threads have been joined', bool(marks) and pth is None, 'Pool._close', 'pool-marked-closed-before-cleanup',
+              '_close sets _pool_closed before the per-worker clean-up has finished: if the close is interrupted (an exception while joining, e.g. Ctrl-C) the pool already counts as closed, '
+              'every later close()/terminate() - the one of __exit__ included - returns at once and the workers outlive the pool', where=loc(cl, marks[0].stmt) if marks else loc(cl, cl.node),
+              path=path_str(pth or []))
     # ---------------------------------------------------------------- R2 paired map updates
     def map_ops(func):
         ops = []
